@@ -15,7 +15,8 @@ RULE = ("positive: cipher {AES-128,-192,-256} x MAC {HMAC-SHA-1, HMAC-SHA-1-128,
         "salt length {0,8,16,33} x passphrase {empty, ASCII, non-ASCII, punctuation} x configuration length 0..48 bytes (every "
         "PKCS#7 padding length) x locator list {one pair, wrong+right, right+wrong, three pairs} with rounds=1, plus rounds "
         "{1,2,1000} and 16 large counts (10^4, 2^16, 10^5, 10^6, 2^20 each +-1, 2*10^6); encrypted configurations that "
-        "re-define 1-3 clear-text names in 3 casings; negative: every other passphrase of a 6-element set; every byte position of the wrapped-key blob, of "
+        "re-define 1-3 clear-text names in 3 casings; every (wrapping cipher, data cipher) pair; salts and data keys whose "
+        "base64 contains '+', '/', both and each padding length; negative: every other passphrase of a 6-element set; every byte position of the wrapped-key blob, of "
         "encryption.data and of both MACs x XOR delta (quick {0x01,0x80,0xFF}, thorough all 255) -> must raise and leave "
         "VMX.attr unchanged. non-trivial = multi-pair locator list, multi-block or empty configuration, or any tamper case")
 ASSUMPTIONS = [
@@ -48,6 +49,8 @@ def shards(tier):
         for part in range(4):
             out.append({"kind": "rounds-big", "kdf": kd, "part": part})
     out.append({"kind": "override"})
+    out.append({"kind": "mixed-cipher"})
+    out.append({"kind": "b64-chars"})
     out.append({"kind": "sequences"})
     out.append({"kind": "large"})
     return out
@@ -103,10 +106,18 @@ def config_text(n: int) -> str:
     return text
 
 
-def build(cipher, mac, kdf, rounds, salt_len, phrase, cfg, layout, data_cipher=None):
+B64_BYTES = {"plus": b"\xfb\xef\xbe", "slash": b"\xff\xff\xff", "both": b"\xfb\xff\xbf\xfe\xfb\xff"}
+
+
+def build(cipher, mac, kdf, rounds, salt_len, phrase, cfg, layout, data_cipher=None, salt_kind=None, key_kind=None):
     data_cipher = data_cipher or cipher
     salt = B.det_bytes("salt", salt_len)
     dk = B.det_bytes("datakey" + cipher, B.KEYLEN[data_cipher])
+    if salt_kind:
+        salt = {"pad1": B64_BYTES["both"] * 3 + b"\xfb\xef", "pad2": B64_BYTES["both"] * 3 + b"\xfb"}.get(
+            salt_kind, (B64_BYTES.get(salt_kind, b"") * 6)[:18])
+    if key_kind:
+        dk = (B64_BYTES[key_kind] * 11)[:B.KEYLEN[data_cipher]]
     right, rblob = B.pair_text(phrase, kdf, cipher, rounds, salt, mac, data_cipher, dk, B.det_bytes("iv1", 16))
     wrong, _ = B.pair_text(phrase + "#other", kdf, cipher, rounds, salt, mac, data_cipher, B.det_bytes("otherkey", B.KEYLEN[data_cipher]),
                            B.det_bytes("iv2", 16), pid="other")
@@ -141,6 +152,19 @@ def run_shard(shard, ctx):
         for r in big[shard["part"]::4]:
             run_case({"kind": "positive", "cipher": CIPHERS[r % 3], "mac": MACS[r % 3], "kdf": shard["kdf"], "rounds": r,
                       "salt": 16, "phrase": 1, "len": 37, "layout": "one"}, ctx)
+    elif kind == "mixed-cipher":
+        # the cipher of the passphrase-derived wrapping key and the cipher of the data key are independent fields
+        for c, dc, m, kd in itertools.product(CIPHERS, CIPHERS, MACS, KDFS):
+            for lay in ("one", "wrong-right"):
+                run_case({"kind": "positive", "cipher": c, "data_cipher": dc, "mac": m, "kdf": kd, "rounds": 2, "salt": 16,
+                          "phrase": 3, "len": 21, "layout": lay}, ctx)
+    elif kind == "b64-chars":
+        # salts and data keys whose base64 spelling contains '+', '/', both, and every padding length
+        for c, m in itertools.product(CIPHERS, MACS):
+            for salt_kind in ("plus", "slash", "both", "pad1", "pad2"):
+                for key_kind in ("plus", "slash", "both"):
+                    run_case({"kind": "positive", "cipher": c, "mac": m, "kdf": KDFS[len(salt_kind) % 2], "rounds": 1, "salt": 16,
+                              "phrase": 1, "len": 9, "layout": "one", "salt_kind": salt_kind, "key_kind": key_kind}, ctx)
     elif kind == "override":
         # the encrypted configuration re-defines names that are also present in the clear-text part (in any casing): after
         # unlock the decrypted value is the one exposed
@@ -223,7 +247,8 @@ def run_case(case, ctx):
                 cs = {"same": str, "lower": str.lower, "upper": str.upper}[case["casing"]]
                 cfg = "\n".join(['%s = "decrypted-%d"' % (cs(n), i) for i, n in enumerate(case["override"])] + ['extra = "1"'])
             text, outer, rblob, dblob, salt, dk = build(case["cipher"], case["mac"], case["kdf"], case["rounds"], case["salt"],
-                                                        phrase, cfg, case["layout"])
+                                                        phrase, cfg, case["layout"], case.get("data_cipher"),
+                                                        case.get("salt_kind"), case.get("key_kind"))
             if case["layout"] != "one" or case["len"] == 0 or case["len"] >= 16:
                 ctx.nontrivial += 1
             v = VMX.parse(text)
